@@ -231,8 +231,11 @@ class AdnlWorld(HistoryWorld):
                 if k == 0 or r < 0.3:
                     st.queue.append({'op': 'new', 'mode': rng.choice(['uniform', 'uniform', 'low', 'high', 'sparse']), 'entropy_seed': rng.getrandbits(64)})
                     k += 1
+                elif r < 0.6:
+                    st.queue.append({'op': 'derive', 'i': rng.randrange(k), 'fresh': bool(ctx.cfg.get('fresh')) and rng.random() < 0.5,
+                                     'via': rng.choice(['wallet', 'wallet', 'private'])})
                 elif r < 0.7:
-                    st.queue.append({'op': 'derive', 'i': rng.randrange(k), 'fresh': bool(ctx.cfg.get('fresh')) and rng.random() < 0.5})
+                    st.queue.append({'op': 'seed', 'i': rng.randrange(k), 'salt': rng.choice(['TON default seed', 'TON HD Keys seed', 'TON fast seed version', 'salt-%d' % rng.randrange(4)])})
                 elif r < 0.85:
                     st.queue.append({'op': 'validate', 'i': rng.randrange(k)})
                 else:
@@ -541,12 +544,42 @@ class AdnlWorld(HistoryWorld):
         if ok and bool(v) != want:
             self.V(ctx, 'validity-differs-from-rule', 'mnemonic_is_valid', how, 'mnemonic_is_valid = %r, the TON rule says %r for %s' % (v, want, ' '.join(w)))
 
+    def op_seed(self, st, op, ctx):
+        """The public seed derivation under another salt (HD wallets use one), interleaved with the wallet-key derivations of the
+        same mnemonic: each (mnemonic, salt) has one seed, whatever was derived before."""
+        if not st.mn:
+            return
+        m = st.mn[op['i'] % len(st.mn)]
+        words = m['words']
+        salt = op['salt'].encode()
+        ok, seed = call(lk.mnemonic_to_seed, list(words), salt)
+        ctx.evaluated(1)
+        if not ok:
+            self.V(ctx, 'derivation-fails', 'mnemonic_to_seed', 'valid', 'mnemonic_to_seed raised %r' % (seed,))
+            return
+        ctx.obs(seed)
+        ctx.probe('seed-under-another-salt' if op['salt'] != 'TON default seed' else 'seed-under-the-default-salt')
+        seen = m.setdefault('seeds', {})
+        if op['salt'] in seen and seen[op['salt']] != seed:
+            self.V(ctx, 'derivation-not-deterministic', 'mnemonic_to_seed', 'repeat', 'two seed derivations from the same mnemonic and salt differ')
+            return
+        for other, sd in seen.items():
+            if other != op['salt'] and sd == seed:
+                self.V(ctx, 'derivation-not-deterministic', 'mnemonic_to_seed', 'salt-ignored-after-earlier-derivation',
+                       'the seed under salt %r equals the seed derived earlier under salt %r: the result depends on which derivation ran first' % (op['salt'], other))
+                return
+        seen[op['salt']] = seed
+        want = hashlib.pbkdf2_hmac('sha512', ref_entropy(words), salt, 100000)
+        if seed != want:
+            self.V(ctx, 'derivation-differs-from-reference', 'mnemonic_to_seed', 'history' if m.get('key') or len(seen) > 1 else 'valid',
+                   'mnemonic_to_seed differs from PBKDF2-HMAC-SHA512(HMAC-SHA512(words), salt, 100000)')
+
     def op_derive(self, st, op, ctx):
         if not st.mn:
             return
         m = st.mn[op['i'] % len(st.mn)]
         words = m['words']
-        ok, kp = call(lk.mnemonic_to_wallet_key, list(words))
+        ok, kp = call(lk.mnemonic_to_private_key if op.get('via') == 'private' else lk.mnemonic_to_wallet_key, list(words))
         ctx.evaluated(1)
         if not ok:
             self.V(ctx, 'derivation-fails', 'mnemonic_to_wallet_key', 'valid', 'mnemonic_to_wallet_key raised %r' % (kp,))
